@@ -349,7 +349,10 @@ Definition select_and_step (l : lstate) (x : xstate) (ev : option event) : lstat
   let cfg := l_cfg l0 in
   let '(sel, x1) := select_loop cfg ev (cfg_postfix cfg) None [] x in
   match sel with
-  | [] => (upd_flags l0 false false, x1, RC_MICROSTEPPED)
+  | [] =>
+    (* nothing enabled: after an event the event-less transitions are selected once more before the next
+       event is dequeued; after an event-less selection the engine goes on to the queues *)
+    (upd_flags l0 (match ev with Some _ => true | None => false end) false, x1, RC_MICROSTEPPED)
   | _ =>
     let targets := fold_left (fun a ti => set_union a (ft_targets (tr c ti))) sel [] in
     let exitset := fold_left (fun a ti => set_union a (exit_states_of cfg (tr c ti))) sel [] in
